@@ -10,97 +10,6 @@
 import Fx.Lemmas.Terminates
 namespace Fx
 
-/-! ### all references (direct ones, `Option<Box<_>>` targets, `Vec<_>` element types) -/
-
-def FieldDec.allRefs : FieldDec → List String
-  | .one b => b.direct
-  | .fixedArr _ b => b.direct
-  | .varArr ty _ _ => [ty]
-  | _ => []
-
-def StructFieldDec.allRefs : StructFieldDec → List String
-  | .plain _ fd => fd.allRefs
-  | .optional _ ty => [ty]
-
-def Arm.allRefs (a : Arm) : List String :=
-  match a.payload with
-  | some fd => fd.allRefs
-  | none => []
-
-def Tail.allRefs : Tail → List String
-  | .defaultData fd => fd.allRefs
-  | _ => []
-
-def ImplBody.allRefs : ImplBody → List String
-  | .struct fs => fs.flatMap StructFieldDec.allRefs
-  | .union u => u.disc.direct ++ u.arms.flatMap Arm.allRefs ++ u.tail.allRefs
-  | .enum _ => []
-  | .typedef fd => fd.allRefs
-
-/-! ### the budget each evaluator needs, given the budget `rec` of the named decoders it calls -/
-
-def BasicDec.need (rec : String → Nat) : BasicDec → Nat
-  | .tryFrom n => rec n + 1
-  | _ => 1
-
-def FieldDec.need (rec : String → Nat) : FieldDec → Nat
-  | .one b => b.need rec + 1
-  | .fixedArr k b => k + b.need rec + 2
-  | .varArr ty _ _ => rec ty + 1
-  | _ => 1
-
-def StructFieldDec.need (rec : String → Nat) : StructFieldDec → Nat
-  | .plain _ fd => fd.need rec
-  | .optional _ ty => rec ty
-
-def fieldsNeed (rec : String → Nat) : List StructFieldDec → Nat
-  | [] => 1
-  | f :: fs => max (f.need rec) (fieldsNeed rec fs) + 1
-
-def Arm.need (rec : String → Nat) (a : Arm) : Nat :=
-  match a.payload with
-  | some fd => fd.need rec
-  | none => 0
-
-def armsNeed (rec : String → Nat) : List Arm → Nat
-  | [] => 0
-  | a :: as => max (a.need rec) (armsNeed rec as)
-
-def Tail.need (rec : String → Nat) : Tail → Nat
-  | .defaultData fd => fd.need rec
-  | _ => 0
-
-def ImplBody.need (rec : String → Nat) : ImplBody → Nat
-  | .struct fs => fieldsNeed rec fs + 1
-  | .union u => max (u.disc.need rec) (max (armsNeed rec u.arms) (u.tail.need rec)) + 1
-  | .enum _ => 1
-  | .typedef fd => fd.need rec + 1
-
-/-- the budget of the decoder of `n`, following references to depth `g` -/
-def Plans.need (p : Plans) : Nat → String → Nat
-  | 0, _ => 0
-  | g + 1, n =>
-    match p.findImpl n with
-    | none => 1
-    | some i => i.body.need (p.need g)
-
-/-- a computable ranking over *all* references -/
-def Plans.rankAll (p : Plans) : Nat → String → Nat
-  | 0, _ => 0
-  | fuel + 1, n =>
-    match p.findImpl n with
-    | none => 0
-    | some i => (i.body.allRefs.map (p.rankAll fuel)).foldr max 0 + 1
-
-/-- no recursive types at all: the computed ranking strictly decreases along every reference -/
-def Plans.acyclic (p : Plans) : Bool :=
-  let rk := p.rankAll (p.impls.length + 1)
-  p.impls.all fun i => i.body.allRefs.all fun m => decide (rk m < rk i.name)
-
-/-- the nesting budget of the decoder of `n`: a number computed from the plans alone -/
-def Plans.depth (p : Plans) (n : String) : Nat :=
-  p.need (p.rankAll (p.impls.length + 1) n + 1) n
-
 /-! ### soundness of `need` -/
 
 section level
